@@ -11,7 +11,9 @@
 (*             by the VIEW; only RejectedLeavesUnchanged reads it)         *)
 (*                                                                         *)
 (* One action per API call of client.Storage: Add, Update, Remove          *)
-(* (RemoveByName); LeaseChange is the environment (the DHCP server).  The  *)
+(* (RemoveByName), LoadConfig (NewStorage with the clients of a            *)
+(* configuration file); LeaseChange is the environment (the DHCP server).  *)
+(* The                                                                     *)
 (* read-only calls Find / FindByName / RangeByName / ApplyClientFiltering  *)
 (* do not change the state; their answers in every reachable state are     *)
 (* what Observe prints and what the Go harness compares after every step.  *)
@@ -76,6 +78,18 @@ Update == \E o \in Names, n \in Names, ids \in IdSets : \E f \in U.flags[n] :
             /\ last' = [op |-> "upd", out |-> r.out]
             /\ UNCHANGED leases
 
+\* Start-up from a configuration file (client.NewStorage with InitialClients,
+\* what home's clients.Init does with the clients of AdGuardHome.yaml): the
+\* second entry point into the registry.  Two clients per file here; a file
+\* with one client is an Add.
+LoadConfig == /\ clients = {}
+              /\ \E n1 \in Names, n2 \in Names, i1 \in IdSets, i2 \in IdSets :
+                 \E f1 \in U.flags[n1], f2 \in U.flags[n2] :
+                   LET r == LoadRes(<<Mk(n1, i1, f1), Mk(n2, i2, f2)>>) IN
+                   /\ clients' = r.reg
+                   /\ last' = [op |-> "load", out |-> r.out]
+                   /\ UNCHANGED leases
+
 Remove == \E n \in Names :
             LET r == RemoveRes(clients, n) IN
             /\ clients' = r.reg
@@ -117,6 +131,14 @@ EdgesUpd(R, L) == UNION {
        <<2, NameIdx(o), NameIdx(n), Mask(ids), FlOf(f), OutIdx(r.out), Key(r.reg, L)>> : ids \in IdSets, f \in U.flags[n]}
     : o \in Names, n \in Names}
 
+\* <<5, n1, n2, mask1 + 2^|ids| * mask2, flags1 + 4 * flags2, reply, dst>>
+EdgesLoad(R, L) ==
+    IF R # {} THEN {} ELSE UNION {
+      {LET r == LoadRes(<<Mk(n1, i1, f1), Mk(n2, i2, f2)>>) IN
+         <<5, NameIdx(n1), NameIdx(n2), Mask(i1) + Pow2(Len(U.ids)) * Mask(i2), FlOf(f1) + 4 * FlOf(f2),
+           OutIdx(r.out), Key(r.reg, L)>> : i1 \in IdSets, i2 \in IdSets, f1 \in U.flags[n1], f2 \in U.flags[n2]}
+      : n1 \in Names, n2 \in Names}
+
 EdgesRem(R, L) ==
     {LET r == RemoveRes(R, n) IN <<3, NameIdx(n), 0, 0, 0, OutIdx(r.out), Key(r.reg, L)>> : n \in Names}
 
@@ -127,7 +149,9 @@ EdgesLease(R, L) == UNION {
 
 \* The quick tier replays the edges of a seeded fraction of the states (the
 \* lookup tables of ALL states are printed and all states are model-checked).
-Sampled(k) == (FoldFunction(+, SampleSeed, [i \in DOMAIN k |-> k[i] * (2 * i + 5)])) % SampleMod = 0
+\* States with an empty registry are always sampled (LoadConfig starts there).
+Sampled(k) == \/ (FoldFunction(+, SampleSeed, [i \in DOMAIN k |-> k[i] * (2 * i + 5)])) % SampleMod = 0
+              \/ \A i \in 1..Len(U.names) : k[i] = 0
 
 EffCode(e) == 4 * NameIdx(e.who) + (IF e.vals = "own" THEN 2 ELSE 0) + (IF e.svcs = "own" THEN 1 ELSE 0)
 
@@ -141,7 +165,7 @@ StateRecord(R, L) ==
      ap |-> [i \in 1..Len(U.cids) |-> [j \in 1..Len(U.addrs) |->
                 EffCode(Effective(R, L, Global, U.cids[i], U.addrs[j]))]],
      e  |-> IF Sampled(Key(R, L))
-            THEN EdgesAdd(R, L) \cup EdgesUpd(R, L) \cup EdgesRem(R, L) \cup EdgesLease(R, L)
+            THEN EdgesAdd(R, L) \cup EdgesUpd(R, L) \cup EdgesRem(R, L) \cup EdgesLease(R, L) \cup EdgesLoad(R, L)
             ELSE {},
      s  |-> Sampled(Key(R, L))]
 
@@ -149,10 +173,11 @@ Observe == /\ U.emit
            /\ PrintT(<<"@@S", ToJson(StateRecord(clients, leases))>>)
            /\ ((clients = {} /\ \A a \in LeaseAddrs : leases[a] = NoId) =>
                  PrintT(<<"@@U", ToJson([names |-> U.names, ids |-> U.ids, addrs |-> U.addrs, cids |-> U.cids,
-                                         leaseaddrs |-> U.leaseaddrs, w |-> U.w, maxids |-> U.maxids])>>))
+                                         leaseaddrs |-> U.leaseaddrs, w |-> U.w, maxids |-> U.maxids,
+                                         zoned |-> U.zoned])>>))
            /\ UNCHANGED vars
 
-Next == Add \/ Update \/ Remove \/ LeaseChange \/ Observe
+Next == Add \/ Update \/ Remove \/ LeaseChange \/ LoadConfig \/ Observe
 Spec == Init /\ [][Next]_vars
 
 \* ------------------------------------------------ properties of the statement
@@ -223,7 +248,7 @@ AllFlags == {F(FALSE, FALSE), F(FALSE, TRUE), F(TRUE, FALSE), F(TRUE, TRUE)}
 
 \* Addresses, nested prefixes and prefix ties.
 UNet == [
-    w |-> 4, emit |-> TRUE, maxids |-> 2,
+    w |-> 4, emit |-> TRUE, zoned |-> FALSE, maxids |-> 2,
     names |-> <<"n1", "n2", "n3">>,
     ids   |-> << <<"ip", 5, 0>>, <<"ip", 2, 0>>, <<"net", 0, 1>>, <<"net", 4, 2>>, <<"net", 4, 3>>, <<"net", 0, 2>> >>,
     flags |-> [n1 |-> {F(TRUE, TRUE)}, n2 |-> {F(TRUE, FALSE)}, n3 |-> {F(FALSE, FALSE)}],
@@ -233,7 +258,7 @@ UNet == [
 
 \* Identifiers of every kind side by side (the DHCP fallback is in USet).
 UKinds == [
-    w |-> 4, emit |-> TRUE, maxids |-> 2,
+    w |-> 4, emit |-> TRUE, zoned |-> FALSE, maxids |-> 2,
     names |-> <<"n1", "n2", "n3">>,
     ids   |-> << <<"cid", 1, 0>>, <<"cid", 2, 0>>, <<"ip", 5, 0>>, <<"net", 4, 2>>, <<"mac", 1, 0>>, <<"mac", 2, 0>> >>,
     flags |-> [n1 |-> {F(FALSE, TRUE)}, n2 |-> {F(TRUE, TRUE)}, n3 |-> {F(FALSE, FALSE)}],
@@ -245,7 +270,7 @@ UKinds == [
 \* that can also be an exact IP / lie in a prefix (5) and for one that cannot (12).
 \* (mac 1 is unowned in many states: a lease to a machine nobody registered.)
 USet == [
-    w |-> 4, emit |-> TRUE, maxids |-> 2,
+    w |-> 4, emit |-> TRUE, zoned |-> FALSE, maxids |-> 2,
     names |-> <<"n1", "n2">>,
     ids   |-> << <<"cid", 1, 0>>, <<"ip", 5, 0>>, <<"net", 4, 2>>, <<"mac", 1, 0>> >>,
     flags |-> [n1 |-> AllFlags, n2 |-> AllFlags],
@@ -253,9 +278,22 @@ USet == [
     addrs |-> <<5, 6, 12>>,
     cids  |-> << NoId, <<"cid", 1, 0>>, <<"cid", 9, 0>> >> ]
 
+\* IPv6 zones (link-local addresses): 0101 without a zone (5), in zone 1 (21)
+\* and in zone 2 (37) are three different exact-IP identifiers, all inside the
+\* prefixes 01xx and 010x.  Lookups: each of them, 0101 in zone 3 (53: nobody's
+\* exact address), and zoned addresses inside / outside the prefixes.
+UZone == [
+    w |-> 4, emit |-> TRUE, zoned |-> TRUE, maxids |-> 2,
+    names |-> <<"n1", "n2", "n3">>,
+    ids   |-> << <<"ip", 5, 0>>, <<"ip", 21, 0>>, <<"ip", 37, 0>>, <<"net", 4, 2>>, <<"net", 4, 3>> >>,
+    flags |-> [n1 |-> {F(TRUE, FALSE)}, n2 |-> {F(FALSE, TRUE)}, n3 |-> {F(FALSE, FALSE)}],
+    leaseaddrs |-> <<>>, leasemacs |-> {},
+    addrs |-> <<5, 21, 37, 53, 22, 28>>,
+    cids  |-> << NoId >> ]
+
 \* Small universe for the coverage (vacuity) run: three identifiers per client.
 UCov == [
-    w |-> 4, emit |-> FALSE, maxids |-> 3,
+    w |-> 4, emit |-> FALSE, zoned |-> FALSE, maxids |-> 3,
     names |-> <<"n1", "n2">>,
     ids   |-> << <<"cid", 1, 0>>, <<"ip", 5, 0>>, <<"net", 4, 2>>, <<"net", 4, 3>>, <<"mac", 1, 0>> >>,
     flags |-> [n1 |-> {F(TRUE, FALSE)}, n2 |-> {F(FALSE, TRUE)}],
